@@ -10,6 +10,7 @@ import (
 	"encoding/hex"
 	"fmt"
 	"os"
+	"reflect"
 	"runtime/debug"
 	"sort"
 
@@ -94,6 +95,38 @@ type Result struct {
 }
 
 func (r Result) OK() bool { return r.Err == nil }
+
+// WireCopy returns msg as a transaction would carry it to the handler: encoded and decoded again
+// (nil instead of empty lists, fresh memory, nested Any values unpacked). A message that cannot
+// be encoded or decoded is returned as it is.
+func WireCopy(cdc codec.Codec, msg sdk.Msg) sdk.Msg {
+	if cdc == nil || msg == nil {
+		return msg
+	}
+	pm, ok := msg.(proto.Message)
+	if !ok {
+		return msg
+	}
+	bz, err := cdc.Marshal(pm)
+	if err != nil {
+		return msg
+	}
+	t := reflect.TypeOf(msg)
+	if t.Kind() != reflect.Ptr {
+		return msg
+	}
+	fresh, ok := reflect.New(t.Elem()).Interface().(proto.Message)
+	if !ok {
+		return msg
+	}
+	if err := cdc.Unmarshal(bz, fresh); err != nil {
+		return msg
+	}
+	if m, ok := fresh.(sdk.Msg); ok {
+		return m
+	}
+	return msg
+}
 
 // deliver runs one message as a transaction against ctx.
 func deliver(ctx sdk.Context, router *baseapp.MsgServiceRouter, msg sdk.Msg) (res Result) {
